@@ -83,9 +83,9 @@ ALL_CLASSES = list(SPECS)
 
 def bounds(tier):
     if tier == 'quick':
-        return {'classes': QUICK_CLASSES, 'datatypes': ['real', 'complex'], 'depth': 3, 'events_per_class': '18-24',
+        return {'classes': QUICK_CLASSES, 'datatypes': ['real', 'complex'], 'depth': 3, 'events_per_class': '22-30',
                 'cross_type_data': 'depth 2', 'start_states': 'fresh object; object with a computed PSD'}
-    return {'classes': ALL_CLASSES, 'datatypes': ['real', 'complex'], 'depth': 5, 'events_per_class': '19-25',
+    return {'classes': ALL_CLASSES, 'datatypes': ['real', 'complex'], 'depth': 5, 'events_per_class': '22-30',
             'cross_type_data': 'depth 3, data= switches real<->complex'}
 
 
